@@ -103,11 +103,13 @@ func short(id string) string {
 }
 
 func (e *engine) runC34() {
-	e.rep.Rule = "exhaustive product, per handler, of configuration values (peer: unset / P1 / P2 / malformed text; protocol: unset / p/a / p/b / invalid UTF-8 (+ bifrost/echo, solicit:*); remote lists: empty / [P1] / [P1,P2] / [P2] / [\"\"] / [malformed]) × stream (protocol × local ∈ {none,P1,P2} × remote ∈ {none,P1,P2}) against the real HandleDirective of each controller; distinct = distinct op line"
+	e.rep.Rule = "exhaustive product, per handler, of configuration values (peer: unset / P1 / P2 / malformed text; protocol: unset / p/a / p/b / invalid UTF-8 (+ bifrost/echo, solicit:*); remote lists: empty / [P1] / [P1,P2] / [P2] / [\"\"] / [malformed]) × EVERY other field of each config message (relay target_peer_id: unset / = peer_id / other / malformed; relay target_protocol_id: unset / = protocol_id / other / invalid; accept transport_id; srpc disable_establish_link, Config.ApplyDefaults; pubsub peer argument; solicit max_hashes) × stream (protocol incl. every target protocol × local ∈ {none,P1,P2} × remote ∈ {none,P1,P2}) against the real HandleDirective of each controller; for every relay that constructs, the value it resolves is handed a stream and a spy on the bus reports the link it keeps up and the (protocol, local peer, target peer) the relayed stream is opened with; same for the srpc server's back link; distinct = distinct op line"
 	for _, k := range []string{"echo", "fwd", "relay", "accept", "srpc", "srpcraw", "pubsub", "solicit"} {
 		e.rep.Require(k+".h0", k+".h1")
 	}
-	e.rep.Require("echo.noctl", "fwd.noctl", "relay.noctl", "accept.noctl", "srpc.noctl")
+	e.rep.Require("echo.noctl", "fwd.noctl", "relay.noctl", "accept.noctl", "srpc.noctl", "srpcdef.h0", "srpcdef.h1",
+		"relay.tproto-unset", "relay.tproto-same", "relay.tproto-other", "relay.tpeer-same", "relay.tpeer-other",
+		"relayfwd.ok", "srpcest.back", "srpcest.none", "srpcdef.defaulted", "srpcdef.own")
 	p1, p2 := mkPeer(1), mkPeer(101)
 	bad := "0OIl" // not base58
 	peerTexts := []string{"", p1.text, p2.text, bad}
@@ -188,15 +190,32 @@ func (e *engine) runC34() {
 		}
 	}
 	// ---- relay ----
+	// Every field of the config message is varied: the two secondary fields (target peer, target
+	// protocol) over unset / equal to the primary / different / malformed, and every variant that
+	// constructs is run against the full stream product — which contains every target protocol and
+	// target peer as a stream protocol / local peer. The spec never mentions the target: a relay
+	// listens on (protocol_id, peer_id) whatever it forwards to.
+	relayFail := []strm{}
+	for _, x := range streams {
+		if (x.local == p1.id || x.local == p2.id) && x.remote == p1.id {
+			relayFail = append(relayFail, x)
+		}
+	}
+	relayStreams := append([]strm{}, streams...)
+	for _, l := range []string{p1.id, p2.id} {
+		relayStreams = append(relayStreams, strm{"p/t", l, p1.id})
+	}
 	for _, pt := range peerTexts {
 		for _, pr := range protos {
-			for _, tp := range []string{p2.text, "", bad} {
-				for _, tpr := range []string{"", "p/t", "\xff"} {
+			for _, tp := range []string{p2.text, p1.text, "", bad} {
+				for _, tpr := range []string{"", "p/a", "p/b", "p/t", "\xff"} {
 					conf := &stream_relay.Config{PeerId: pt, ProtocolId: pr, TargetPeerId: tp, TargetProtocolId: tpr}
 					verr := conf.Validate()
 					ctl, cerr := stream_relay.NewController(e.le, e.bus, conf)
 					lid, okL := idOf(pt)
-					sp := spec{proper: okL && lid != "" && protoOK(pr) && tp == p2.text && tpr != "\xff", protos: []string{pr}, local: lid}
+					tid, okT := idOf(tp)
+					okTP := tpr == "" || protoOK(tpr)
+					sp := spec{proper: okL && lid != "" && protoOK(pr) && okT && tid != "" && okTP, protos: []string{pr}, local: lid}
 					if lid == "" {
 						sp.protos = nil // no source peer: must serve nothing
 					}
@@ -204,11 +223,37 @@ func (e *engine) runC34() {
 					if cerr == nil {
 						h = ctl
 					}
-					st := streams
-					if tp != p2.text || tpr != "" {
-						st = streams[:8] // constructor-failure variants: a few streams suffice
+					st := relayStreams
+					if !sp.proper && cerr != nil {
+						st = relayFail // constructor-failure variants: the streams a built controller would take
 					}
-					e.c34Config("relay", fmt.Sprintf("peer=%s proto=%s tpeer=%s tproto=%s", hx(pt), hx(pr), hx(tp), hx(tpr)), h, cerr, verr, sp, st)
+					rel := "unset"
+					switch {
+					case tpr == pr && tpr != "":
+						rel = "same"
+					case tpr != "" && okTP:
+						rel = "other"
+					case tpr != "":
+						rel = "bad"
+					}
+					if cerr == nil {
+						e.rep.Branches["relay.tproto-"+rel]++
+						if tid == lid {
+							e.rep.Branches["relay.tpeer-same"]++
+						} else {
+							e.rep.Branches["relay.tpeer-other"]++
+						}
+					}
+					op := fmt.Sprintf("peer=%s proto=%s tpeer=%s tproto=%s", hx(pt), hx(pr), hx(tp), hx(tpr))
+					e.c34Config("relay", op, h, cerr, verr, sp, st)
+					// what the relayed stream is opened WITH
+					if cerr == nil {
+						want := relayWant{proto: tpr, peer: tid}
+						if tpr == "" {
+							want.proto = pr
+						}
+						e.c34RelayForward(op, ctl, pr, lid, want, sp.proper)
+					}
 				}
 			}
 		}
@@ -216,102 +261,170 @@ func (e *engine) runC34() {
 	// ---- accept ----
 	remoteLists := [][]string{nil, {p1.text}, {p1.text, p2.text}, {p2.text}, {""}, {bad}, {p1.text, ""}}
 	for _, pt := range peerTexts {
-		for _, rl := range remoteLists {
+		for ri, rl := range remoteLists {
 			for _, pr := range protos {
-				conf := &stream_api_accept.Config{LocalPeerId: pt, RemotePeerIds: rl, ProtocolId: pr}
-				verr := conf.Validate()
-				ctl, cerr := stream_api_accept.NewController(e.le, conf, e.bus)
-				lid, okL := idOf(pt)
-				okR := true
-				var rids []string
-				for _, t := range rl {
-					id, ok := idOf(t)
-					if !ok || id == "" {
-						okR = false
+				for _, tid := range []uint64{0, 7} {
+					if tid != 0 && ri > 1 {
+						continue // transport_id (means nothing for the filter): varied on the first two lists
 					}
-					rids = append(rids, id)
+					conf := &stream_api_accept.Config{LocalPeerId: pt, RemotePeerIds: rl, ProtocolId: pr, TransportId: tid}
+					verr := conf.Validate()
+					ctl, cerr := stream_api_accept.NewController(e.le, conf, e.bus)
+					lid, okL := idOf(pt)
+					okR := true
+					var rids []string
+					for _, t := range rl {
+						id, ok := idOf(t)
+						if !ok || id == "" {
+							okR = false
+						}
+						rids = append(rids, id)
+					}
+					sp := spec{proper: okL && okR && protoOK(pr), protos: []string{pr}, local: lid, remotes: rids}
+					if !okR {
+						sp.protos = nil
+					}
+					var h handlerCtl
+					if cerr == nil {
+						h = ctl
+					}
+					e.c34Config("accept", fmt.Sprintf("local=%s remotes=%s proto=%s tid=%d", hx(pt), hxList(rl), hx(pr), tid), h, cerr, verr, sp, streams)
 				}
-				sp := spec{proper: okL && okR && protoOK(pr), protos: []string{pr}, local: lid, remotes: rids}
-				if !okR {
-					sp.protos = nil
-				}
-				var h handlerCtl
-				if cerr == nil {
-					h = ctl
-				}
-				e.c34Config("accept", fmt.Sprintf("local=%s remotes=%s proto=%s", hx(pt), hxList(rl), hx(pr)), h, cerr, verr, sp, streams)
 			}
 		}
 	}
 	// ---- srpc server (through Config.BuildServer, and the raw constructor) ----
 	peerLists := [][]string{nil, {p1.text}, {p1.text, p2.text}, {p2.text}, {""}, {bad}, {p2.text, p2.text}}
 	protoLists := [][]string{nil, {"p/a"}, {"p/a", "p/b"}, {"p/b"}, {""}, {"\xff"}, {"p/b", "p/b"}}
-	for _, pl := range peerLists {
-		for _, prl := range protoLists {
-			conf := &stream_srpc_server.Config{PeerIds: pl, ProtocolIds: prl}
-			verr := conf.Validate()
-			srv, cerr := conf.BuildServer(e.bus, e.le, verifInfo, nil)
-			proper := true
-			var lids []string
-			for _, t := range pl {
-				id, ok := idOf(t)
-				if !ok || id == "" {
-					proper = false
+	for pi, pl := range peerLists {
+		for pri, prl := range protoLists {
+			for _, dis := range []bool{false, true} {
+				if dis && (pi > 3 || pri > 3) {
+					continue // disable_establish_link (not a filter): varied on the well-formed lists
 				}
-				lids = append(lids, id)
-			}
-			for _, p := range prl {
-				if !protoOK(p) {
-					proper = false
+				conf := &stream_srpc_server.Config{PeerIds: pl, ProtocolIds: prl, DisableEstablishLink: dis}
+				verr := conf.Validate()
+				srv, cerr := conf.BuildServer(e.bus, e.le, verifInfo, nil)
+				proper := true
+				var lids []string
+				for _, t := range pl {
+					id, ok := idOf(t)
+					if !ok || id == "" {
+						proper = false
+					}
+					lids = append(lids, id)
 				}
+				for _, p := range prl {
+					if !protoOK(p) {
+						proper = false
+					}
+				}
+				sp := spec{proper: proper, protos: prl, locals: lids}
+				if !proper {
+					sp.protos = nil
+				}
+				var h handlerCtl
+				if cerr == nil {
+					h = srv
+				}
+				e.c34Config("srpc", fmt.Sprintf("peers=%s protos=%s dis=%s", hxList(pl), hxList(prl), bit(dis)), h, cerr, verr, sp, streams)
 			}
-			sp := spec{proper: proper, protos: prl, locals: lids}
-			if !proper {
-				sp.protos = nil
+		}
+	}
+	// Config.ApplyDefaults(defaults).BuildServer — the path signaling/rpc/server takes: a config
+	// that names protocols serves exactly those, one that names none serves exactly the defaults.
+	for _, pl := range [][]string{nil, {p1.text}} {
+		for _, prl := range [][]string{nil, {"p/a"}, {"p/b", "p/b"}, {""}} {
+			for _, defs := range [][]string{nil, {"p/b"}, {"p/a", "p/b"}, {"\xff"}} {
+				conf := &stream_srpc_server.Config{PeerIds: pl, ProtocolIds: prl}
+				dp := make([]protocol.ID, len(defs))
+				for i := range defs {
+					dp[i] = protocol.ID(defs[i])
+				}
+				conf2 := conf.ApplyDefaults(dp)
+				verr := conf2.Validate()
+				srv, cerr := conf2.BuildServer(e.bus, e.le, verifInfo, nil)
+				eff := prl
+				if len(prl) == 0 {
+					eff = defs
+				}
+				proper := true
+				for _, p := range eff {
+					if !protoOK(p) {
+						proper = false
+					}
+				}
+				var lids []string
+				for _, t := range pl {
+					id, _ := idOf(t)
+					lids = append(lids, id)
+				}
+				sp := spec{proper: proper, protos: eff, locals: lids}
+				if !proper {
+					sp.protos = nil
+				}
+				var h handlerCtl
+				if cerr == nil {
+					h = srv
+				}
+				if len(prl) == 0 {
+					e.rep.Branches["srpcdef.defaulted"]++
+				} else {
+					e.rep.Branches["srpcdef.own"]++
+				}
+				e.c34Config("srpcdef", fmt.Sprintf("peers=%s protos=%s dis=0 defs=%s", hxList(pl), hxList(prl), hxList(defs)), h, cerr, verr, sp, streams)
 			}
-			var h handlerCtl
-			if cerr == nil {
-				h = srv
-			}
-			e.c34Config("srpc", fmt.Sprintf("peers=%s protos=%s", hxList(pl), hxList(prl)), h, cerr, verr, sp, streams)
 		}
 	}
 	// raw NewServer: peerIDs are base58 *text*; entries that are not the text of any peer never match
 	rawPeerLists := [][]string{nil, {p1.text}, {p1.text, p2.text}, {p2.text}, {"zz"}, {""}}
-	for _, pl := range rawPeerLists {
-		for _, prl := range protoLists {
-			ps := make([]protocol.ID, len(prl))
-			for i := range prl {
-				ps[i] = protocol.ID(prl[i])
-			}
-			srv, cerr := stream_srpc_server.NewServer(e.bus, e.le, verifInfo, nil, ps, pl, true)
-			var lids []string
-			for _, t := range pl {
-				switch t {
-				case p1.text:
-					lids = append(lids, p1.id)
-				case p2.text:
-					lids = append(lids, p2.id)
-				case "":
-					lids = append(lids, "") // base58 of the empty ID is the empty string
-				default:
-					lids = append(lids, "\x00no-such-peer")
+	for pi, pl := range rawPeerLists {
+		for pri, prl := range protoLists {
+			for _, dis := range []bool{true, false} {
+				if !dis && (pi > 2 || pri > 3) {
+					continue
+				}
+				ps := make([]protocol.ID, len(prl))
+				for i := range prl {
+					ps[i] = protocol.ID(prl[i])
+				}
+				srv, cerr := stream_srpc_server.NewServer(e.bus, e.le, verifInfo, nil, ps, pl, dis)
+				var lids []string
+				for _, t := range pl {
+					switch t {
+					case p1.text:
+						lids = append(lids, p1.id)
+					case p2.text:
+						lids = append(lids, p2.id)
+					case "":
+						lids = append(lids, "") // base58 of the empty ID is the empty string
+					default:
+						lids = append(lids, "\x00no-such-peer")
+					}
+				}
+				sp := spec{proper: true, protos: prl, locals: lids}
+				var h handlerCtl
+				if cerr == nil {
+					h = srv
+				}
+				e.c34Config("srpcraw", fmt.Sprintf("protos=%s peers=%s dis=%s", hxList(prl), hxList(pl), bit(dis)), h, cerr, nil, sp, streams)
+				// what the server does with a stream it took: the back link, iff not disabled
+				if cerr == nil && pi == 1 && pri == 1 {
+					e.c34SrpcBackLink(fmt.Sprintf("protos=%s peers=%s dis=%s", hxList(prl), hxList(pl), bit(dis)), srv, dis, p1.id)
 				}
 			}
-			sp := spec{proper: true, protos: prl, locals: lids}
-			var h handlerCtl
-			if cerr == nil {
-				h = srv
-			}
-			e.c34Config("srpcraw", fmt.Sprintf("protos=%s peers=%s", hxList(prl), hxList(pl)), h, cerr, nil, sp, streams)
 		}
 	}
-	// ---- pubsub ----
-	for _, pr := range protos {
-		ctl := pubsub_controller.NewController(e.le, e.bus, verifInfo, peer.ID(p1.id), protocol.ID(pr), nil)
-		e.c34Config("pubsub", "pid="+hx(pr), ctl, nil, nil, spec{proper: true, protos: []string{pr}}, streams)
+	// ---- pubsub ---- (the peer ID argument names the signing peer; it is not a filter)
+	for _, pp := range []string{p1.id, "", p2.id} {
+		for _, pr := range protos {
+			ctl := pubsub_controller.NewController(e.le, e.bus, verifInfo, peer.ID(pp), protocol.ID(pr), nil)
+			e.c34Config("pubsub", "peer="+hx(pp)+" pid="+hx(pr), ctl, nil, nil, spec{proper: true, protos: []string{pr}}, streams)
+		}
 	}
-	// ---- solicit ----
-	sctl, serr := link_solicit_controller.NewController(e.le, &link_solicit_controller.Config{})
-	e.c34Config("solicit", "", sctl, serr, nil, spec{proper: true, protos: []string{"bifrost/solicit"}, prefix: "solicit:"}, solStreams)
+	// ---- solicit ---- (max_hashes bounds an exchange; it is not a filter)
+	for _, mh := range []uint32{0, 1, 256, 100000} {
+		sctl, serr := link_solicit_controller.NewController(e.le, &link_solicit_controller.Config{MaxHashes: mh})
+		e.c34Config("solicit", fmt.Sprintf("mh=%d", mh), sctl, serr, nil, spec{proper: true, protos: []string{"bifrost/solicit"}, prefix: "solicit:"}, solStreams)
+	}
 }
